@@ -16,7 +16,8 @@
 //   o <h> ...                                        Circuit::m_nodes in storage order
 //   n <h> <id> <cls> <ref> <grp|-> <nIn> <d.p|-|?>… <nOut> {<kind> <width> <nCons> <c.p|?>…}… <nClk> <clk|-|?>…
 //   g <gid> <n> <h|?>…                                NodeGroup::m_nodes in order
-//   k <cid> <clkdrv|-|?> <rstdrv|-|?> <n> <h.p|?>…     Clock::m_clockDriver, m_resetDriver, getClockedNodes() sorted  (k <cid> x : destroyed)
+//   k <cid> <clkdrv|-|?> <rstdrv|-|?> <n> <h.p|?>… c <m> <h.p|?>…    Clock::m_clockDriver, m_resetDriver, m_clockedNodes (sorted by handle),
+//                                                     m_clockedNodesCache (in order); all peeked, never through getClockedNodes()  (k <cid> x : destroyed)
 //   <cls>: 0 other, 1 Node_Signal, 2 Node_Signal2Clk, 3 Node_Signal2Rst
 //   t <h> <KIND> …                                    (design mode) node kind and the parameters the type check needs
 //   .
@@ -81,6 +82,9 @@ static void collectGroups(const hlim::NodeGroup *g, Maps &m) {
 struct ClockPeek : public hlim::Clock {
 	static hlim::Node_Signal2Clk *clkDrv(const hlim::Clock *c) { return c->*(&ClockPeek::m_clockDriver); }
 	static hlim::Node_Signal2Rst *rstDrv(const hlim::Clock *c) { return c->*(&ClockPeek::m_resetDriver); }
+	// the registration set and the lazily built sorted view of it, read WITHOUT Clock::getClockedNodes() (which would (re)build the view)
+	static const auto &regSet(const hlim::Clock *c) { return (c->*(&ClockPeek::m_clockedNodes)).anyOrder(); }
+	static const std::vector<NodePort> &regCache(const hlim::Clock *c) { return c->*(&ClockPeek::m_clockedNodesCache); }
 };
 static int classOf(const BaseNode *n) {
 	if (dynamic_cast<const hlim::Node_Signal*>(n)) return 1;
@@ -158,13 +162,16 @@ static void dumpGraph(std::ostream &o, const hlim::Circuit &c, const Maps &m, bo
 	}
 	for (size_t k = 0; k < m.clocks.size(); k++) {
 		if (m.clocks[k] == nullptr) { o << "k " << k << " x\n"; continue; }
-		auto cn = m.clocks[k]->getClockedNodes();
+		const auto &cn = ClockPeek::regSet(m.clocks[k]);
 		std::vector<std::pair<size_t, size_t>> known; size_t unknown = 0;
 		for (auto &p : cn) { auto it = m.node.find(p.node); if (it == m.node.end()) unknown++; else known.push_back({it->second, p.port}); }
 		std::sort(known.begin(), known.end());
 		o << "k " << k << ' ' << slotStr(m, ClockPeek::clkDrv(m.clocks[k])) << ' ' << slotStr(m, ClockPeek::rstDrv(m.clocks[k])) << ' ' << cn.size();
 		for (auto &p : known) o << ' ' << p.first << '.' << p.second;
 		for (size_t i = 0; i < unknown; i++) o << " ?";
+		const auto &cache = ClockPeek::regCache(m.clocks[k]);
+		o << " c " << cache.size();
+		for (auto &p : cache) o << ' ' << np(m, p);
 		o << '\n';
 	}
 	if (types)
@@ -430,6 +437,11 @@ struct OpsCase {
 			}
 			if (lc.empty()) return;
 			if (rng.chance(1, 10)) { overrideSeq(lc[rng.below(lc.size())]); return; }
+			if (rng.chance(1, 5)) { // the caching getter, at random points: both cache states occur before later attach / detach operations
+				size_t ci = lc[rng.below(lc.size())];
+				exec("getclocked " + std::to_string(ci), [&] { (void) clocks[ci]->getClockedNodes(); });
+				return;
+			}
 			if (isDrv(n)) { // Clock::setLogicClockDriver / setLogicResetDriver: first binding, re-binding, replacing the current driver
 				size_t ci = lc[rng.below(lc.size())];
 				bool isClk = classOf(n) == 2;
@@ -536,6 +548,17 @@ struct HookScope {
 	HookScope() { hlim::verif_passBoundary = &hookBoundary; }
 	~HookScope() { hlim::verif_passBoundary = nullptr; }
 };
+
+// Circuit::shuffleNodes() uses a default-seeded std::mt19937 (one fixed permutation per node count); permute with the harness RNG as
+// well and record how many positions really changed (the dump numbers nodes by position, so the order is not visible there)
+static void shuffleBoth(hlim::Circuit &c, Rng &rng) {
+	auto &v = c.getNodes();
+	std::vector<const BaseNode*> before; for (auto &n : v) before.push_back(n.get());
+	if (rng.chance(1, 2)) c.shuffleNodes();
+	for (size_t i = v.size(); i > 1; i--) std::swap(v[i - 1], v[rng.below(i)]);
+	size_t moved = 0; for (size_t i = 0; i < v.size(); i++) if (v[i].get() != before[i]) moved++;
+	std::cout << "sh " << moved << ' ' << v.size() << '\n';
+}
 
 // DefaultPostprocessing::run replayed through the public methods, with a dump after every pass (Circuit.cpp:1675-1782)
 struct SteppedPostprocessing : public hlim::PostProcessor {
@@ -776,10 +799,10 @@ static void runDesignCase(Rng &rng, uint64_t id, size_t nstmts) {
 					case 0: case 5: { HookScope hk; design.postprocess(); } dumpAt("postprocess", circuit); break;
 					case 1: { HookScope hk; circuit.postprocess(hlim::MinimalPostprocessing{}); } dumpAt("postprocessMinimal", circuit); break;
 					case 2: circuit.postprocess(SteppedPostprocessing{true}); dumpAt("postprocessStepped", circuit); break;
-					case 3: circuit.shuffleNodes(); dumpAt("shuffleNodes", circuit); circuit.postprocess(SteppedPostprocessing{true}); dumpAt("postprocessStepped", circuit); break;
+					case 3: shuffleBoth(circuit, rng); dumpAt("shuffleNodes", circuit); circuit.postprocess(SteppedPostprocessing{true}); dumpAt("postprocessStepped", circuit); break;
 					case 4: design.postprocess(); dumpAt("postprocess", circuit);
 						{ SteppedPostprocessing again{true}; again.generalOptimization(circuit); } dumpAt("repeated", circuit);
-						circuit.shuffleNodes(); { SteppedPostprocessing again{false}; again.generalOptimization(circuit); } dumpAt("repeated-shuffled", circuit);
+						shuffleBoth(circuit, rng); { SteppedPostprocessing again{false}; again.generalOptimization(circuit); } dumpAt("repeated-shuffled", circuit);
 						break;
 				}
 				std::cout << "post ok\n";
